@@ -93,6 +93,7 @@ def parse_output(out):
     cur = None
     pend_fd = {}
     pend_pos = {}
+    pend_posx = {}
     for line in out.split("\n"):
         if not line:
             continue
@@ -102,6 +103,7 @@ def parse_output(out):
             cases.append(cur)
             pend_fd = {}
             pend_pos = {}
+            pend_posx = {}
         elif head == "fd":
             p = rest.split()
             tab = {}
@@ -113,6 +115,8 @@ def parse_output(out):
         elif head == "pos":
             p = rest.split()
             pend_pos.setdefault(int(p[1]), {}).setdefault((int(p[2]), int(p[3])), []).append((int(p[4]), int(p[5])))
+            if len(p) >= 8:      # bare IoU of the two boxes and the candidate box confidence (f32 bits, '-' = none)
+                pend_posx.setdefault(int(p[1]), {})[(int(p[2]), int(p[3]))] = (None if p[6] == "-" else int(p[6]), None if p[7] == "-" else int(p[7]))
         elif head == "call":
             d = _kv(rest.split())
             recs_s = d.get("recs", "")
@@ -126,7 +130,7 @@ def parse_output(out):
                 recs = [parse_rec(x) for x in recs_s.split(";") if x]
             call = {"j": int(d["j"]), "scene": int(d["scene"]), "epoch": int(d["epoch"]), "after": int(d["after"]) if "after" in d else None,
                     "dets": [parse_det(x) for x in d.get("dets", "").split(";") if x], "recs": recs, "status": status,
-                    "trk": {}, "fd": dict(pend_fd.pop(int(d["j"]), {})), "pos": dict(pend_pos.pop(int(d["j"]), {})), "panic_loc": panic_loc, "share": {}}
+                    "trk": {}, "fd": dict(pend_fd.pop(int(d["j"]), {})), "pos": dict(pend_pos.pop(int(d["j"]), {})), "posx": dict(pend_posx.pop(int(d["j"]), {})), "panic_loc": panic_loc, "share": {}}
             cur["calls"].append(call)
         elif head == "share":
             p = rest.split()      # k j uid id stored-bits|- feature-stored record-length
